@@ -41,6 +41,9 @@ TRANSPARENT_GENERIC = {
     "std::vec::Vec::<T, A>::as_slice",
     # value-preserving on the success payload
     "std::result::Result::<T, E>::map_err",
+    "std::result::Result::<T, E>::inspect_err",
+    "std::result::Result::<T, E>::inspect",
+    "std::option::Option::<T>::inspect",
     "std::option::Option::<T>::ok_or",
     "std::option::Option::<T>::ok_or_else",
     "std::hint::must_use",
